@@ -126,8 +126,12 @@ def gap(n, ch='a'):
     return data('string ' + ch * n, (ch * n).encode())
 
 
-def const(name, expr):
-    return dict(k='const', text='%s = %s' % (name, expr))
+def const(name, expr, value=None):
+    """a constant definition; when `value` is given the name can also be used like a label (an absolute position)"""
+    it = dict(k='const', text='%s = %s' % (name, expr))
+    if value is not None:
+        it.update(name=name, value=value)
+    return it
 
 
 def source(items):
@@ -391,6 +395,7 @@ class Walk:
         self.ok = False
         self.places = None
         self.labels = {}
+        self.env = {}        # labels + constants usable as absolute positions
         self.errors = []
 
     def offset_of(self, idx):
@@ -405,7 +410,9 @@ def walk(items, out, compress):
     tried = 0
     for places in structural_parses(items, out, compress):
         tried += 1
-        labels = {it['name']: pl[0] for it, pl in zip(items, places) if it['k'] == 'label'}
+        only_labels = {it['name']: pl[0] for it, pl in zip(items, places) if it['k'] == 'label'}
+        labels = dict(only_labels)
+        labels.update({it['name']: it['value'] for it in items if it['k'] == 'const' and 'value' in it})     # constants shadow labels (ChainMap(constants, labels))
         errs = []
         for idx, (it, pl) in enumerate(zip(items, places)):
             missing = [l for l in refs(it) if l not in labels]
@@ -414,12 +421,12 @@ def walk(items, out, compress):
                 continue
             check_item(it, pl, labels, out, compress, errs, idx)
         if best is None or len(errs) < len(best[2]):
-            best = (places, labels, errs)
+            best = (places, only_labels, errs, labels)
         if not errs or tried >= 8:
             break
     if best is None:
         w.errors = [('structure', -1, 'the output (%d bytes) is not the in-order concatenation of the items' % len(out))]
         return w
-    w.places, w.labels, w.errors = best
+    w.places, w.labels, w.errors, w.env = best
     w.ok = not w.errors
     return w
